@@ -159,8 +159,12 @@ def generate(rng, tier):
                 s.add("newcache C")
                 lines.append(s.add("trace U%d C %s %s %s %d" % (which, hx(x["pc"]), regs, mid, len(sc["frames"]) + 3)))
             f = sc1["frames"][0]["func"]
-            s.meta[lines[0]] = {"twin": lines[1], "dm": bases[1] - bases[0], "ds": top2 - top1, "arch": arch, "deps": [lines[1]],
-                                "code": [bases[0], bases[0] + prog["end"] + 0x100]}
+            from props import C02 as _c02
+            if not any(_c02.big_bp(x["func"]) for x in sc1["frames"]):
+                # (walks through a function of known finding S21 of C02 continue with a garbage frame pointer taken from
+                # a register: what happens to it depends on where the stack lies - not this property's subject)
+                s.meta[lines[0]] = {"twin": lines[1], "dm": bases[1] - bases[0], "ds": top2 - top1, "arch": arch, "deps": [lines[1]],
+                                    "code": [bases[0], bases[0] + prog["end"] + 0x100]}
             s.tags[lines[0]] = "%s:macho:%s:%s" % (arch, f.shape, sc1["frames"][0]["phase"])
         out.append(("macho-reloc-%s-%d" % (arch, pi), s))
     return out
